@@ -131,6 +131,21 @@ Theorem C05_renewal_end_to_end : forall od idue s p c st,
 Proof. exact renewal_end_to_end. Qed.
 Print Assumptions C05_renewal_end_to_end.
 
+(** whenever a background job ends — in any state, on any schedule — the certificate stored
+    under its name is in the cache, answering for all of its names *)
+Theorem C05_job_end_serves_stored : forall od idue s n k pre j post,
+  WF od s -> split_job n k (jobs s) = Some (pre, j, post) ->
+  jobs (step od idue s (JobStep n k)) = pre ++ post ->
+  forall st, stored (store (step od idue s (JobStep n k))) n = Some st ->
+             In st (cache (step od idue s (JobStep n k))) /\
+             forall m, In m (cnames st) -> In st (resolve m (cache (step od idue s (JobStep n k)))).
+Proof.
+  intros od idue s n k pre j post W SJ E st S.
+  pose proof (job_step_done_cache od idue s n k pre j post W SJ E st S) as H. split; auto.
+  intros m Hm. apply In_resolve; split; auto. apply has_name_In; auto.
+Qed.
+Print Assumptions C05_job_end_serves_stored.
+
 (** ** "If renewal fails, the old certificate keeps being served" *)
 
 (** a failed attempt changes nothing but the issuer's log *)
